@@ -50,8 +50,9 @@ def generic(pid, tier, seed, mcs, scripts, vals, assumptions, extra_cov=None, pr
         vstates += sum(r["states"] for r in res)
     never = [a for r in mc_res for a in r["never_taken"]]
     cov = {
-        "states": sum(r["distinct"] for r in mc_res),
-        "transitions": sum(r["generated"] for r in mc_res),
+        # without a separate design model the TLC states are those of the validation itself
+        "states": sum(r["distinct"] for r in mc_res) if mc_res else max(1, vstates),
+        "transitions": sum(r["generated"] for r in mc_res) if mc_res else max(1, lines),
         "traces_validated_against_impl": len(scripts),
         "trace_lines_validated": lines,
         "trace_states_checked": vstates,
@@ -281,8 +282,63 @@ def check_C02(tier, seed):
                               "generator_states": gst})
 
 
+def hostile_scripts(tier, seed, kinds):
+    r = random.Random(seed * 7919 + 3)
+    quick = tier == "quick"
+    cases, gst = V.gen("HostileGen.tla", "HostileGen.cfg", "C03")
+    scripts = []
+    reps = 2 if quick else 12
+    for c in cases:
+        if kinds is not None and c["k"] not in kinds:
+            continue
+        for _ in range(reps):
+            scripts.append(scen.hostile_case(c, r, len(scripts)))
+    return r, cases, gst, scripts
+
+
+def check_C03(tier, seed):
+    quick = tier == "quick"
+    r, cases, gst, scripts = hostile_scripts(tier, seed, None)
+    for i in range(250 if quick else 6000):
+        scripts.append(scen.hostile_flood(r, len(scripts)))
+    for i in range(500 if quick else 20000):
+        scripts.append(scen.hostile_tp(r, len(scripts)))
+    for i in range(300 if quick else 8000):
+        scripts.append(scen.hostile_raw(r, len(scripts)))
+    return generic("C03", tier, seed, [], scripts,
+                   [("hostile", "HostileTrace.tla", "HostileTrace.cfg")],
+                   ["authenticated hostile frames are appended to genuine packets and re-tagged by the harness (toy provider), hostile transport parameters are edited at the crypto provider boundary, raw datagrams go straight to Endpoint::handle",
+                    "the expected outcome table Hostile!Expected assumes a victim that has just completed the handshake and opened no stream of its own",
+                    "memory growth is approximated by probed queue lengths against fixed caps",
+                    "no separate design model: the table is a function, TLC evaluates it per recorded case (states/transitions count validation states)"],
+                   extra_cov={"abstract_cases_enumerated_by_tlc": len(cases), "generator_states": gst})
+
+
+def check_C06(tier, seed):
+    quick = tier == "quick"
+    kinds = {"stream", "reset", "finthenmore", "datagram", "crypto", "maxstreams"}
+    r, cases, gst, scripts = hostile_scripts(tier, seed + 6, kinds)
+    # honest runs for the buffering bound and credit-only-for-consumed clauses
+    r2 = random.Random(seed * 7919 + 6)
+    honest = [scen.flow_script(r2, i) for i in range(500 if quick else 20000)]
+    mcs = [("Credit.tla", "MC_Credit.cfg" if quick else "MC_Credit3.cfg")]
+    res = generic("C06", tier, seed, mcs, scripts,
+                  [("hostile", "HostileTrace.tla", "HostileTrace.cfg")],
+                  ["limit probes are injected one below / at / one above each advertised limit by the man in the middle",
+                   "buffered-bytes bound and credit-only-for-consumed are validated on honest runs against Credit's receiver invariants via the probe"],
+                  extra_cov={"abstract_cases_enumerated_by_tlc": len([c for c in cases if c["k"] in kinds]), "generator_states": gst})
+    res2 = generic("C06b", tier, seed, [], honest, [("recvlimits", "RecvLimitsTrace.tla", "RecvLimitsTrace.cfg")], [])
+    res["violations"] += res2["violations"]
+    res["coverage"]["honest_runs_for_buffer_bound"] = len(honest)
+    res["coverage"]["traces_validated_against_impl"] += len(honest)
+    res["coverage"]["trace_event_counts"].update(res2["coverage"]["trace_event_counts"])
+    return res
+
+
 REGISTRY = {
     "C01": check_C01,
+    "C03": check_C03,
+    "C06": check_C06,
     "C02": check_C02,
     "C11": check_C11,
     "C12": check_C12,
@@ -338,4 +394,16 @@ def replay_C02(scripts):
     return generic("C02", "quick", 0, [], scripts, [("progress", "ProgressTrace.tla", "ProgressTrace.cfg")], [], shards=1)
 
 
-REPLAY = {"C02": replay_C02, "C11": replay_C11, "C12": replay_C12, "C05": replay_C05, "C04": replay_C04, "C08": replay_C08, "C01": replay_C01, "C07": replay_C07}
+def replay_C03(scripts):
+    return generic("C03", "quick", 0, [], scripts, [("hostile", "HostileTrace.tla", "HostileTrace.cfg")], [], shards=1)
+
+
+def replay_C06(scripts):
+    a = generic("C06", "quick", 0, [], [x for x in scripts if x["tag"].get("hostile")] or scripts[:1],
+                [("hostile", "HostileTrace.tla", "HostileTrace.cfg")], [], shards=1)
+    b = generic("C06b", "quick", 0, [], scripts, [("recvlimits", "RecvLimitsTrace.tla", "RecvLimitsTrace.cfg")], [], shards=1)
+    a["violations"] += b["violations"]
+    return a
+
+
+REPLAY = {"C06": replay_C06, "C03": replay_C03, "C02": replay_C02, "C11": replay_C11, "C12": replay_C12, "C05": replay_C05, "C04": replay_C04, "C08": replay_C08, "C01": replay_C01, "C07": replay_C07}
